@@ -10,3 +10,23 @@ import "context"
 func (r *WALReader) PageMapLimited(ctx context.Context, maxBytes int64) (m map[uint32]int64, maxOffset int64, commit uint32, limited bool, err error) {
 	return r.pageMap(ctx, maxBytes)
 }
+
+// VerifSyncStateView is a copy of the in-memory sync cursor.
+type VerifSyncStateView struct {
+	TruncatePassiveFailed bool
+	SyncedSinceCheckpoint bool
+	SyncedToWALEnd        bool
+	LastSyncedWALOffset   int64
+}
+
+// VerifSyncState returns a copy of db.syncState.
+func (db *DB) VerifSyncState() VerifSyncStateView {
+	db.mu.Lock()
+	defer db.mu.Unlock()
+	return VerifSyncStateView{
+		TruncatePassiveFailed: db.syncState.truncatePassiveFailed,
+		SyncedSinceCheckpoint: db.syncState.syncedSinceCheckpoint,
+		SyncedToWALEnd:        db.syncState.syncedToWALEnd,
+		LastSyncedWALOffset:   db.syncState.lastSyncedWALOffset,
+	}
+}
